@@ -484,3 +484,36 @@ impl<Ctx: OptCtx> LoweredToLir<'_, Ctx> {
         self.ir.print(&printer)
     }
 }
+
+#[cfg(feature = "verif-hooks")]
+impl<Ctx: OptCtx> TypeChecked<'_, Ctx> {
+    /// Verification hook (C01): the CFG skeleton of every item before and
+    /// after `Mir::eliminate_dead_code`, from one and the same lowering.
+    pub fn verif_c01_cfgs(
+        &self,
+    ) -> (
+        Vec<crate::verif_hooks::c01::CfgItem>,
+        Vec<crate::verif_hooks::c01::CfgItem>,
+    ) {
+        let mut type_info = self.type_info.clone();
+        let mut label_store = LabelStore::default();
+        let mut ir = mir::verif_lower_to_mir_without_dce(
+            &self.module_tree,
+            &self.runtime.rt,
+            &mut type_info,
+            &mut label_store,
+            &self.order,
+        );
+        let before = crate::verif_hooks::c01::cfg_of(&ir);
+        ir.eliminate_dead_code();
+        (before, crate::verif_hooks::c01::cfg_of(&ir))
+    }
+}
+
+#[cfg(feature = "verif-hooks")]
+impl<Ctx: OptCtx> LoweredToMir<'_, Ctx> {
+    /// Verification hook (C01): the CFG skeleton of this MIR.
+    pub fn verif_c01_cfg(&self) -> Vec<crate::verif_hooks::c01::CfgItem> {
+        crate::verif_hooks::c01::cfg_of(&self.ir)
+    }
+}
